@@ -13,7 +13,7 @@ from __future__ import annotations
 
 from typing import Any, List
 
-from .common import call, same, is_symbolic, PathAbort, mk_array
+from .common import call, same, is_symbolic, PathAbort, mk_array, replay_tiers
 
 PROP = "C13"
 
@@ -86,8 +86,9 @@ def make_model_harness(n: int, imaginary: bool):
 class NNLS:
     """deterministic uninterpreted stand-in for scipy.optimize.nnls: equal inputs give the same non-negative vector"""
 
-    def __init__(self, eng):
+    def __init__(self, eng, light=False):
         self.eng = eng
+        self.light = light
         self.calls: List[Any] = []
 
     def __call__(self, A, b, maxiter=None):
@@ -95,12 +96,12 @@ class NNLS:
         A, b = asarr(A), asarr(b)
         flat = list(A.flat) + list(b.flat)
         for old, g in self.calls:
-            if len(old) == len(flat) and all(self.eng.implied(same(x, y), light=False) if is_symbolic(same(x, y)) else bool(same(x, y)) for x, y in zip(old, flat)):
+            if len(old) == len(flat) and all(self.eng.implied(same(x, y), light=self.light) if is_symbolic(same(x, y)) else bool(same(x, y)) for x, y in zip(old, flat)):
                 return g
         k = len(self.calls)
         g = [self.eng.real("g%d_%d" % (k, i), npy=True) for i in range(b.size)]
         for v in g:
-            self.eng.assume(v >= 0)
+            self.eng.axiom((v >= 0).term)          # fresh variables: trivially consistent, no query needed
         garr = mk_array(self.eng, g)
         self.calls.append((flat, garr))
         return garr
@@ -162,6 +163,63 @@ def make_scaling_harness(n: int, imaginary: bool, what: str):
     return harness
 
 
+def make_lambda_harness(n: int, imaginary: bool, route: str):
+    """automatic regularisation: whatever the search evaluates, the DRT returned for the chosen lambda is the DRT a fixed
+    lambda of that value gives (the search must not disturb the system that is solved afterwards)"""
+    def harness(eng):
+        import pyimpspec.analysis.drt.tr_nnls as tr
+        from sx import symnp
+        eng.div_zero_policy = "assume"
+        fs = [eng.real("f%d" % i, npy=False) for i in range(n)]
+        for i, f in enumerate(fs):
+            eng.assume(f > 0)
+            if i:
+                eng.assume(fs[i - 1] > f)
+        Z = [eng.complex("Z%d" % i, npy=False) for i in range(n)]
+        lam = eng.real("lambda", npy=False)
+        trial = [eng.real("trial%d" % i, npy=False) for i in range(2)]
+        for v in [lam] + trial:
+            eng.assume(v > 0)
+        eng.assume(Z[-1].real - Z[0].real != 0)
+        nn = NNLS(eng, light=True)
+        probed = []
+
+        def corner_search(P, minimum, maximum):
+            for t in trial:
+                probed.append(P(t))
+            return lam
+
+        def suggest(lambda_values, solution_norms):
+            probed.append(solution_norms)
+            return lam
+        saved = (tr._solve, tr._l_curve_corner_search, tr._suggest_lambda, tr._generate_lambda_values, tr.norm, tr.log)
+        fresh = []
+
+        def opaque(x):
+            # the objective values only steer the (stubbed) search: norm and log return an arbitrary real
+            fresh.append(eng.real("opaque%d" % len(fresh), npy=True))
+            return fresh[-1]
+        tr.norm = tr.log = opaque
+        tr._solve = nn
+        tr._l_curve_corner_search = corner_search
+        tr._suggest_lambda = suggest
+        tr._generate_lambda_values = lambda **kw: mk_array(eng, trial)
+        mode = "imaginary" if imaginary else "real"
+        try:
+            fixed = tr.calculate_drt_tr_nnls(_data(eng, fs, Z), mode=mode, lambda_value=lam)
+            auto = tr.calculate_drt_tr_nnls(_data(eng, fs, Z), mode=mode, lambda_value=-2.0 if route == "lcurve" else -1.0)
+        finally:
+            tr._solve, tr._l_curve_corner_search, tr._suggest_lambda, tr._generate_lambda_values, tr.norm, tr.log = saved
+        _nonvacuous(eng)
+        eng.check(len(probed) > 0, "the search evaluated trial values")
+        eng.check(same(auto.lambda_value, lam), "the selected regularisation parameter is reported")
+        for i in range(n):
+            eng.check(same(auto.gammas[i], fixed.gammas[i]), "the DRT for the selected lambda is the DRT a fixed lambda of that value gives",
+                      lambda: "gamma[%d]: %r vs %r" % (i, auto.gammas[i], fixed.gammas[i]))
+            eng.check(same(auto.time_constants[i], fixed.time_constants[i]), "the time constants do not depend on the lambda search")
+    return harness
+
+
 def make_rpol_harness(k: int):
     """R_pol > 0 for R0 + k parallel RC elements with positive resistances (k = 1, 2)"""
     def harness(eng):
@@ -185,6 +243,7 @@ def make_rpol_harness(k: int):
         _nonvacuous(eng)
         eng.check(R_pol > 0, "the polarisation resistance of an RC ladder with positive resistances is positive", lambda: "%r" % (R_pol,))
         eng.check(same(Zn[0].real, 0), "the normalised spectrum starts at zero real part")
+        eng.check(same(R_pol, Z[-1].real - Z[0].real) and same(R_inf, Z[0].real), "R_inf is the first real part and R_pol the span of the real parts")
     return harness
 
 
@@ -196,7 +255,7 @@ def obligations(tier: str):
     stubs = ["scipy.optimize.nnls (_solve) is a deterministic uninterpreted function: equal inputs give the same vector, g >= 0",
              "ln is uninterpreted; for frequency scaling the functional equation ln(x/s) = ln x - ln s is instantiated on the time constants that occur"]
     obs = []
-    n = 2 if tier == "quick" else 3
+    n = 2 if tier == "quick" else 4
     for im in (False, True):
         tag = "imaginary" if im else "real"
         obs.append(Obligation("column.%s" % tag, make_column_harness(n + 1, im), bounds="%d x %d design matrix, mode %s" % (n + 1, n + 1, tag), functions=funcs,
@@ -206,6 +265,14 @@ def obligations(tier: str):
             obs.append(Obligation("scaling.%s.%s" % (what, tag), make_scaling_harness(n + 1, im, what),
                                   bounds="calculate_drt_tr_nnls on %d symbolic points, fixed symbolic lambda > 0, scale factor > 0, mode %s" % (n + 1, tag),
                                   functions=funcs, stubs=stubs, expect_reach=["non-vacuous"], mode="fresh", query_timeout_ms=60000))
+        for route in ("lcurve", "custom"):
+            obs.append(Obligation("lambda.%s.%s" % (route, tag), make_lambda_harness(n + 1, im, route),
+                                  bounds="calculate_drt_tr_nnls on %d symbolic points, automatic lambda via the %s route with the search replaced by 2 symbolic "
+                                         "trial values and a symbolic selected value, mode %s" % (n + 1, route, tag),
+                                  functions=funcs + [tr._l_curve_P, tr._test_lambda_values], stubs=stubs + [
+                                      "_l_curve_corner_search / _suggest_lambda / _generate_lambda_values: evaluate the real objective at 2 symbolic trial values, return a symbolic lambda",
+                                      "norm / log inside the L-curve objective return arbitrary reals (their values only steer the stubbed search)"],
+                                  expect_reach=["non-vacuous"], mode="fresh", query_timeout_ms=60000))
     for k in (1, 2):
         obs.append(Obligation("rpol.%d" % k, make_rpol_harness(k), bounds="R0 + %d RC element(s), 3 frequencies" % k, functions=funcs, expect_reach=["non-vacuous"], mode="fresh"))
     for o in obs:
@@ -226,11 +293,51 @@ def replay(obligation: str, witness):
     import numpy as np
     from pyimpspec import DataSet
     from pyimpspec.analysis.drt.tr_nnls import calculate_drt_tr_nnls, _generate_A_matrix
-    f = np.logspace(4, -1, 26)
-    w = 2 * np.pi * f
-    Z = 10 + 100 / (1 + 1j * w * 1e-2) + 50 / (1 + 1j * w * 1.0)
     kind = obligation.split(".")[0]
     mode = "imaginary" if obligation.endswith("imaginary") else "real"
+    if kind != "column":
+        # a spectrum with a small and one with a large series resistance; then the symbolic harness itself on the witness
+        out = []
+        for R0 in (10.0, 400.0):
+            ok, msg = _numeric(obligation, kind, mode, R0)
+            out.append(msg)
+            if ok:
+                return True, msg
+        from sx.concrete import run_concrete
+        for tier in replay_tiers():
+            for ob in obligations(tier):
+                if ob.name == obligation:
+                    reproduced, msg, _ = run_concrete(ob.harness, witness)
+                    if reproduced:
+                        return True, msg + " (harness on the plain library at the witness values, nnls stubbed)"
+        return False, "; ".join(out)
+    return _numeric(obligation, kind, mode, 10.0)
+
+
+def _numeric(obligation, kind, mode, R0):
+    import numpy as np
+    from pyimpspec import DataSet
+    from pyimpspec.analysis.drt.tr_nnls import calculate_drt_tr_nnls, _generate_A_matrix, _normalize_impedance
+    f = np.logspace(4, -1, 26)
+    w = 2 * np.pi * f
+    Z = R0 + 100 / (1 + 1j * w * 1e-2) + 50 / (1 + 1j * w * 1.0)
+    if kind == "rpol":
+        Zn, R_inf, R_pol = _normalize_impedance(Z.copy())
+        want = Z[-1].real - Z[0].real
+        return (not (R_pol > 0)) or abs(R_pol - want) > 1e-9 * abs(want) or abs(R_inf - Z[0].real) > 1e-9, "R0=%g: R_inf %.6g R_pol %.6g, expected %.6g %.6g" % (R0, R_inf, R_pol, Z[0].real, want)
+    if kind == "lambda":
+        lam = 1e-3
+        import pyimpspec.analysis.drt.tr_nnls as tr
+        saved = (tr._l_curve_corner_search, tr._suggest_lambda)
+        tr._l_curve_corner_search = lambda P, minimum, maximum: (P(1e-4), P(1e-2), lam)[-1]
+        tr._suggest_lambda = lambda lv, sn: lam
+        try:
+            fixed = calculate_drt_tr_nnls(DataSet(f, Z), mode=mode, lambda_value=lam)
+            auto = calculate_drt_tr_nnls(DataSet(f, Z), mode=mode, lambda_value=-2.0 if ".lcurve." in obligation else -1.0)
+        finally:
+            tr._l_curve_corner_search, tr._suggest_lambda = saved
+        err = float(np.max(np.abs(auto.gammas - fixed.gammas)) / np.max(np.abs(fixed.gammas)))
+        return err > 1e-9 or auto.lambda_value != lam, "R0=%g: DRT after the search deviates from the fixed-lambda DRT by %.3g (relative)" % (R0, err)
     if kind == "column":
         tau = 1 / w
         d = np.ones_like(tau) * 0.3
